@@ -2,8 +2,8 @@
 (***************************************************************************)
 (* Code -> spec for C15.  Events are the actions of Handle.tla with the      *)
 (* observed projection after the step:                                       *)
-(*   [a, obs |-> [out, sent, live, hopen]]   library / environment action    *)
-(*   [a |-> "reset", detect]                 a new history starts             *)
+(*   [a, obs |-> [out, sent, live, hopen, hmode]]   library / environment action *)
+(*   [a |-> "reset", detect, mode]           a new history starts             *)
 (*   [a |-> "iscsi", connects, disconnects]  one iSCSI session, summarised    *)
 (* A step is accepted when some successor the specification allows has the    *)
 (* observed projection.  After a rejected step the rest of that history is    *)
@@ -14,13 +14,14 @@ EXTENDS Handle, Json, IOUtils, Sequences
 Trace == JsonDeserialize(IOEnv.TRACE_FILE)
 VARIABLES l, dead
 
-Proj(t) == [out |-> t.out, sent |-> t.sent, live |-> t.live, hopen |-> (t.handle = "open")]
+Proj(t) == [out |-> t.out, sent |-> t.sent, live |-> t.live, hopen |-> (t.handle = "open"), hmode |-> t.hmode]
 
-Fresh0(d) == [node |-> "present", fresh |-> TRUE, handle |-> "open", detect |-> d, armed |-> FALSE,
-              live |-> 1, sent |-> "none", out |-> "ok", act |-> "open"]
+Fresh0(d, m) == [node |-> "present", fresh |-> TRUE, handle |-> "open", detect |-> d, armed |-> FALSE,
+                 live |-> 1, sent |-> "none", out |-> "ok", act |-> "open", mode |-> m, hmode |-> m]
 
 Clause(e) ==
-    IF e.a = "exec" /\ e.obs.sent = "stale" /\ s.detect THEN "NoStaleSend"
+    IF e.obs.hmode # s.mode THEN "ReopenedAsRequested"
+    ELSE IF e.a = "exec" /\ e.obs.sent = "stale" /\ s.detect THEN "NoStaleSend"
     ELSE IF e.a = "exec" /\ s.detect /\ s.node = "absent" THEN "VanishedIsError"
     ELSE IF e.a = "exec" /\ ~s.detect THEN "DetectionOffKeepsHandle"
     ELSE IF e.a = "exec" /\ s.armed THEN "ReopenedEvenIfCloseFails"
@@ -28,12 +29,12 @@ Clause(e) ==
     ELSE IF e.obs.live > 1 THEN "OneHandle"
     ELSE "FreshAfterExec"
 
-TInit == l = 1 /\ dead = FALSE /\ s = Fresh0(TRUE)
+TInit == l = 1 /\ dead = FALSE /\ s = Fresh0(TRUE, "ro")
 
 StepT ==
     /\ l <= Len(Trace)
     /\ LET e == Trace[l] IN
-       IF e.a = "reset" THEN s' = Fresh0(e.detect) /\ dead' = FALSE
+       IF e.a = "reset" THEN s' = Fresh0(e.detect, e.mode) /\ dead' = FALSE
        ELSE IF e.a = "iscsi" THEN
             /\ (IF e.connects = 1 /\ e.disconnects = 1 THEN TRUE
                 ELSE PrintT(<<"VERDICT", ToJson([i |-> l, clause |-> "ReleasedOnce",
